@@ -3,6 +3,7 @@ package c06
 import (
 	"fmt"
 	"reflect"
+	"regexp"
 	"strings"
 
 	"github.com/zclconf/go-cty/cty"
@@ -27,7 +28,11 @@ func codecValue(r *core.Rand, unknowns bool) cty.Value {
 	return gen.Value(r, ty, o)
 }
 
-var jsonTokens = []string{"null", "true", "false", "0", "-0", "1e400", "1.5", `""`, "\"\u00e9\"", "\"e\u0301\"", "[]", "{}", `{"a":null}`, `[null]`, `"1"`, `"true"`, ",", ":", "[", "]", "{", "}"}
+// exponents of four or more digits are clamped: a number like 1e999999999 decodes fine but makes every
+// later decimal rendering (GoString, hashing, the model's equality) take minutes
+var reHugeExp = regexp.MustCompile(`([eE][+-]?)[0-9]{3,}`)
+
+var jsonTokens = []string{"null", "true", "false", "0", "-0", "1e300", "1.5", `""`, "\"\u00e9\"", "\"e\u0301\"", "[]", "{}", `{"a":null}`, `[null]`, `"1"`, `"true"`, ",", ":", "[", "]", "{", "}"}
 
 // mutateBytes applies 1..3 edits: bit flip, insert, delete, truncate, splice of
 // a fragment of another encoding, token replacement (JSON) or NFD decomposition.
@@ -71,6 +76,7 @@ func mutateBytes(r *core.Rand, b, other []byte, isJSON bool) []byte {
 			out[p] = byte(r.Intn(256))
 		}
 	}
+	out = reHugeExp.ReplaceAll(out, []byte("${1}99"))
 	if !isJSON {
 		// array32 / map32 headers make the decoder pre-allocate by the claimed length (known, C17's subject);
 		// keep them out so that this driver's workers are not killed by the memory limit
